@@ -145,7 +145,7 @@ def retained(insp):
 
 
 def drive_bare(name, data, sizes, qplan=None, watch_regions=True,
-               mem_bound=None, log=None):
+               mem_bound=None, log=None, feed_after_error=False):
     """Feed one bare inspector.  qplan: {chunk_index: [query names]}.
     Returns dict(verdict, error, region_bad, max_retained, insp)."""
     m = fi()
@@ -160,11 +160,14 @@ def drive_bare(name, data, sizes, qplan=None, watch_regions=True,
     for idx, n in enumerate(sizes):
         chunk = data[pos:pos + n]
         pos += n
-        if err is None:
+        if err is None or feed_after_error:
+            # feed_after_error: a caller that catches what eat_chunk raises
+            # and keeps presenting the stream
             try:
                 insp.eat_chunk(chunk)
             except Exception as e:
-                err = [idx, type(e).__name__]
+                if err is None:
+                    err = [idx, type(e).__name__]
         if rw is not None and len(bad) < 3:
             bad.extend(rw.check(insp, idx))
         if mem_bound is not None:
@@ -182,7 +185,7 @@ def drive_bare(name, data, sizes, qplan=None, watch_regions=True,
                 for q in qs:
                     res = do_query(insp, q)
                     qres.append((idx, q, res))
-        elif err is not None and rw is None:
+        elif err is not None and rw is None and not feed_after_error:
             # a failed inspector is not fed again: nothing can change any more
             break
     insp.finish()
